@@ -50,7 +50,9 @@ def case(draw, tier="quick"):
     n_orders = draw(st.sampled_from([1, 2, 5, 50, 100, 300, 2000 if tier == "thorough" else 600]))
     return {"names": names, "sep": sep, "n_orders": n_orders, "simulated": draw(st.booleans()),
             "unknown": draw(st.booleans()), "stages": draw(st.sampled_from([1, 1, 2, 3])),
-            "closed": draw(st.booleans())}
+            "closed": draw(st.booleans()),
+            # the separator may also come from the documented setting flumine.config.order_sep (set at run time)
+            "via_config": draw(st.integers(0, 3)) == 0}
 
 
 def make_orders(strategy, n, sep, market_id="1.100000000"):
@@ -60,7 +62,7 @@ def make_orders(strategy, n, sep, market_id="1.100000000"):
     out = []
     for i in range(n):
         t = Trade(market_id, 1001 + (i % 3), 0, strategy)
-        out.append(t.create_order("BACK", LimitOrder(2.0, 2.0), sep=sep))
+        out.append(t.create_order("BACK", LimitOrder(2.0, 2.0), sep=sep) if sep is not None else t.create_order("BACK", LimitOrder(2.0, 2.0)))
     return out
 
 
@@ -86,7 +88,8 @@ def check(c):
     classes = set()
     sep = c["sep"]
     sep_valid = len(sep) == 1 and sep in VALID
-    with simlab.clean_config({"simulated": False}):
+    via_config = bool(c.get("via_config"))
+    with simlab.clean_config({"simulated": False, "order_sep": sep} if via_config else {"simulated": False}):
         strategies = [BaseStrategy(market_filter={}, name=n) for n in c["names"]]
         ctx = SimulatedDateTime() if c["simulated"] else None
         if ctx:
@@ -94,7 +97,12 @@ def check(c):
             ctx(_dt.datetime(2023, 1, 1, 12, 0, 0))
             classes.add("simulated-clock")
         try:
-            if not sep_valid:
+            if via_config:
+                # orders created the normal way, without an explicit separator: whatever the setting holds, every
+                # reference must come out valid (all clauses below); an invalid setting may be rejected or ignored
+                classes.add("separator-from-config:" + ("valid" if sep_valid else "invalid"))
+                sep_use = None
+            elif not sep_valid:
                 t = Trade("1.100000000", 1001, 0, strategies[0])
                 try:
                     t.create_order("BACK", LimitOrder(2.0, 2.0), sep=sep)
@@ -111,8 +119,14 @@ def check(c):
                 classes.add("valid-separator")
             orders = []
             per = max(1, c["n_orders"] // len(strategies))
-            for s in strategies:
-                orders += [(s, o) for o in make_orders(s, per, sep_use)]
+            try:
+                for s in strategies:
+                    orders += [(s, o) for o in make_orders(s, per, sep_use)]
+            except ValueError:
+                if via_config and not sep_valid:
+                    classes.add("invalid-config-separator-rejected")  # rejecting it is as good as ignoring it
+                    return True, classes
+                raise
         finally:
             if ctx:
                 ctx.__exit__(None, None, None)
